@@ -146,6 +146,26 @@ def run_states(tier: str) -> dict[str, Any]:
             check([m, m, m], True, "repeats")
     finally:
         s.close()
+    # a callback that calls back into the library (sends a command, asks for an image) while the message is being dispatched
+    got = []
+    s = Sess()
+    try:
+        def reentrant(st: Any) -> None:
+            got.append(st)
+            s.client.switch_command(7, bool(len(got) & 1))
+            if len(got) % 3 == 0:
+                s.client.request_single_image()
+
+        s.client.subscribe_states(reentrant)
+        s.written()
+        for a, b in itertools.product(types, repeat=2):
+            check([mk(a, 1), mk(b, 2), mk(a, 3)], True, "re-entrant callback")
+        cmds = [n for n, _ in s.written()]
+        if cmds.count("SwitchCommandRequest") != 3 * len(types) ** 2:
+            add("states:reentrant:commands", f"commands sent from inside the state callback: {cmds.count('SwitchCommandRequest')} SwitchCommandRequest "
+                f"frames for {3 * len(types) ** 2} callbacks")
+    finally:
+        s.close()
     # the same over the encrypted transport (every type, all pairs in one chunk and in separate chunks)
     got = []
     s = Sess(noise=True)
